@@ -4,8 +4,8 @@ from props.lifecycle_common import run_lifecycle
 
 def run(ctx):
     if ctx.quick:
-        run_lifecycle(ctx, bfs=[("P1", 3, 3), ("P2", 2, 3), ("P3", 2, 3)], emit=[],
-                      sim=[("P1", 4, 4, 120, 16), ("P2", 3, 4, 80, 14), ("P3", 3, 4, 80, 14)])
+        run_lifecycle(ctx, bfs=[("P1", 3, 3), ("P2", 2, 3), ("P3", 2, 3)], emit=[("P0", 2, 3), ("P4", 1, 2)],
+                      sim=[("P1", 4, 4, 100, 16), ("P2", 3, 4, 60, 14), ("P3", 3, 4, 60, 14)])
     else:
-        run_lifecycle(ctx, bfs=[("P1", 4, 4), ("P2", 3, 4), ("P3", 3, 4)], emit=[("P3", 2, 2)],
+        run_lifecycle(ctx, bfs=[("P1", 4, 4), ("P2", 3, 4), ("P3", 3, 4)], emit=[("P0", 3, 4), ("P4", 2, 3), ("P3", 2, 2)],
                       sim=[("P1", 6, 6, 1500, 24), ("P2", 5, 6, 1000, 22), ("P3", 5, 6, 1000, 22)])
